@@ -9,6 +9,7 @@ inductive Op where
   | newPlan
   | next (i : Nat)
   | setIndex (n : Nat)     -- hook VerifSetLBIndex: reach the counter wrap without 2^64 calls
+  | conc (g k : Nat)       -- g goroutines create k plans each at the same time and take the first host
 
 def parseOp (s : String) : Option Op :=
   match opArgs s with
@@ -18,6 +19,9 @@ def parseOp (s : String) : Option Op :=
   | ("P", []) => some .newPlan
   | ("N", [i]) => i.toNat?.map .next
   | ("S", [n]) => n.toNat?.map .setIndex
+  | ("C", [g, k]) => match g.toNat?, k.toNat? with
+    | some g, some k => some (.conc g k)
+    | _, _ => none
   | _ => none
 
 def runModel : LB.LB → Array LB.Plan → List Op → List String → List String
@@ -25,6 +29,15 @@ def runModel : LB.LB → Array LB.Plan → List Op → List String → List Stri
   | lb, ps, .ev e :: ops, acc => runModel (LB.onEvent lb e) ps ops acc
   | lb, ps, .newPlan :: ops, acc => let (p, lb') := LB.newPlan lb; runModel lb' (ps.push p) ops acc
   | lb, ps, .setIndex n :: ops, acc => runModel { lb with index := n % LB.U64 } ps ops acc
+  | lb, ps, .conc g k :: ops, acc =>
+    -- each creation is one atomic fetch-and-add: the g*k plans get g*k consecutive offsets, in some order;
+    -- which host each plan starts at is then fixed, only who got which is not
+    let (firsts, lb') := (List.range (g * k)).foldl (fun (st : List String × LB.LB) _ =>
+      let (p, l') := LB.newPlan st.2
+      (((p.next).1.getD "-") :: st.1, l')) ([], lb)
+    let keys := (firsts.eraseDups).mergeSort (· ≤ ·)
+    let tok := "c:" ++ ",".intercalate (keys.map fun h => s!"{h}={(firsts.filter (· == h)).length}")
+    runModel lb' ps ops (tok :: acc)
   | lb, ps, .next i :: ops, acc =>
     match ps[i]? with
     | none => runModel lb ps ops ("?" :: acc)
@@ -37,6 +50,7 @@ def toSpecOp : Op → Option PlanSpec.Op
   | .newPlan => some .newPlan
   | .next i => some (.next i)
   | .setIndex _ => none
+  | .conc _ _ => none
 
 def handle (op real : String) : Verdict :=
   match (splitNE op " ").mapM parseOp with
@@ -49,9 +63,16 @@ def handle (op real : String) : Verdict :=
     let sig := s!"ev{nEv}-pl{nPl}-out{outs.length}"
     let specOps := ops.filterMap toSpecOp
     -- the spec's rotation clause does not apply across a forced index jump
-    let usesSet := ops.any fun | .setIndex _ => true | _ => false
-    let (ok, key, why) := PlanSpec.planOK specOps (outs.map fun o => if o = "-" then none else some o)
-    if !ok && !(usesSet && key = "rotation") then { kind := "spec", sig, key, detail := why }
+    let usesSet := ops.any fun | .setIndex _ => true | .conc _ _ => true | _ => false
+    let (ok, key, why) := PlanSpec.planOK specOps ((outs.filter fun o => !(o.startsWith "c:")).map fun o => if o = "-" then none else some o)
+    -- fairness under concurrent creation: first choices of simultaneously created plans differ by at most one per host
+    let unfair := outs.any fun o => o.startsWith "c:" &&
+      (let cs := ((o.drop 2).toString.splitOn ",").filterMap fun kv => ((kv.splitOn "=").getD 1 "").toNat?
+       match cs.max?, cs.min? with
+       | some mx, some mn => mx > mn + 1
+       | _, _ => false)
+    if unfair then { kind := "spec", sig, key := "C15:concurrent-rotation", detail := s!"plans created at the same time did not spread evenly over the hosts: {real}" }
+    else if !ok && !(usesSet && key = "rotation") then { kind := "spec", sig, key, detail := why }
     else if model ≠ outs then { kind := "diff", sig, detail := " ".intercalate model }
     else { kind := "ok", sig }
 
